@@ -18,6 +18,21 @@ sys.path.insert(0, os.path.join(V, 'dev'))
 from mutants_pclauses_list import MUTANTS  # noqa: E402   (name, kind, property id, repo-relative file, old, new, what)
 
 
+def apply_mutation(s, old, new):
+    """`old` is a text that occurs exactly once, or (text, n, total): its n-th (0-based) of exactly `total` occurrences."""
+    if isinstance(old, tuple):
+        text, n, total = old
+        if s.count(text) != total:
+            return None
+        i = -1
+        for _ in range(n + 1):
+            i = s.index(text, i + 1)
+        return s[:i] + new + s[i + len(text):]
+    if s.count(old) != 1:
+        return None
+    return s.replace(old, new)
+
+
 def run(m):
     name, kind, pid, rel, old, new, what = m
     d = os.path.join(SCRATCH, name)
@@ -25,10 +40,11 @@ def run(m):
     subprocess.run(['rsync', '-a', '--exclude', 'target', '--exclude', '.git', REPO + '/', d + '/'], check=True)
     p = os.path.join(d, rel)
     s = open(p).read()
-    if s.count(old) != 1:
+    s2 = apply_mutation(s, old, new)
+    if s2 is None:
         shutil.rmtree(d, ignore_errors=True)
-        return m, 'N/A', ['MUTATION NOT APPLICABLE (%d matches)' % s.count(old)]
-    open(p, 'w').write(s.replace(old, new))
+        return m, 'N/A', ['MUTATION NOT APPLICABLE']
+    open(p, 'w').write(s2)
     env = dict(os.environ, VERIF_OUT=os.path.join(d, '_out'), VERIF_REPO=d, VERIF_NO_KANI='1', VERIF_NO_RT='1')
     r = subprocess.run([os.path.join(V, 'check'), pid], env=env, capture_output=True, text=True, cwd=V)
     out = r.stdout + r.stderr
